@@ -3,6 +3,7 @@ package checks
 import (
 	"encoding/json"
 	"fmt"
+	"github.com/trustbloc/sidetree-go/pkg/canonicalizer"
 	"github.com/trustbloc/sidetree-go/pkg/versions/1_0/operationparser"
 
 	"github.com/trustbloc/sidetree-go/pkg/commitment"
@@ -40,11 +41,29 @@ func runC04(r *fw.Runner) {
 	for b := 0; b < r.N(200, 3000); b++ {
 		r.Case("chains", func(c *fw.Case) { c04Chain(c) })
 	}
+	// chains whose requests are built by the long-form client (its own reveal-value and commitment plumbing, with algorithm
+	// migration on update and recover): each request must open the commitment installed before it
+	for b := 0; b < r.N(30, 300); b++ {
+		r.Case("client-built-chains", func(c *fw.Case) { c08Client(c) })
+	}
+}
+
+// c04Poison hands the canonicalizer a document it has to give up on half-way (duplicate member, truncated, bad literal): nothing of
+// it may show in what is canonicalized next.
+func c04Poison(c *fw.Case) {
+	bad := fw.Pick(c.Rng, []string{`{"a":1,"crv":"P-256","a":2}`, `{"kty":"EC","x":{"b":1,"b":2}`, `{"zz":tru}`, `{"x":"unterminated`, `{"k":1,"nonce":"n",}`, `{"crv":"X","kty":"Y","x":"Z","y":"W","x":"dup"}`, `[{"a":1,"b":`})
+	if _, err := canonicalizer.MarshalCanonical([]byte(bad)); err == nil {
+		c.Observe("canonicalizer accepted a malformed document: " + bad)
+	}
+	c.Count("malformed-documents-canonicalized-in-between", 1)
 }
 
 func c04Keys(c *fw.Case, n int) {
 	r := c.Rng
 	for i := 0; i < n; i++ {
+		if i%2 == 1 {
+			c04Poison(c)
+		}
 		typ := gen.AllKeyTypes[(c.Idx+i)%len(gen.AllKeyTypes)]
 		k := gen.NewKey(r, typ)
 		nonce := r.Chance(1, 2)
@@ -312,6 +331,9 @@ func c04Chain(c *fw.Case) {
 			} else {
 				_ = rv2
 			}
+		}
+		if r.Chance(1, 3) {
+			c04Poison(c)
 		}
 		rv, err := st.Parser.GetRevealValue(b.Request)
 		c.Evals(2)
